@@ -3,6 +3,7 @@ package engine
 import (
 	"bufio"
 	"bytes"
+	"context"
 	"errors"
 	"fmt"
 	"hash/crc32"
@@ -145,6 +146,7 @@ type wire struct {
 	faultAt int
 	first   bool
 	done    <-chan struct{}
+	ctx     context.Context
 	sid     int
 }
 
@@ -158,7 +160,7 @@ func (w *wire) Read(p []byte) (int, error) {
 			return 0, io.ErrUnexpectedEOF
 		}
 		if w.lat > 0 {
-			if w.r.Sim.Sleep(w.lat, w.done, "up:chunk") {
+			if w.r.Sim.Sleep(w.lat, w.done, "up:chunk") || (w.ctx != nil && ctxOver(w.ctx)) {
 				return 0, errors.New("sim: context canceled while reading body")
 			}
 		} else {
@@ -268,10 +270,10 @@ func (o *originRT) RoundTrip(req *http.Request) (*http.Response, error) {
 		return nil, errOrigin
 	}
 	done := req.Context().Done()
-	if req.Context().Err() != nil {
+	if ctxOver(req.Context()) {
 		call.CancelAt = r.Sim.Now()
 		end("ctx")
-		return nil, req.Context().Err()
+		return nil, ctxErr(req.Context())
 	}
 	if plan.Fault == "hang" {
 		r.fired("net.hang")
@@ -285,10 +287,10 @@ func (o *originRT) RoundTrip(req *http.Request) (*http.Response, error) {
 		return nil, errors.New("sim: run over")
 	}
 	if plan.LatNs > 0 {
-		if r.Sim.Sleep(time.Duration(plan.LatNs), done, "up:lat") {
+		if r.Sim.Sleep(time.Duration(plan.LatNs), done, "up:lat") || ctxOver(req.Context()) {
 			call.CancelAt = r.Sim.Now()
 			end("ctx")
-			return nil, req.Context().Err()
+			return nil, ctxErr(req.Context())
 		}
 		if r.Sim.Aborted() {
 			return nil, errors.New("sim: run over")
@@ -312,6 +314,24 @@ func (o *originRT) RoundTrip(req *http.Request) (*http.Response, error) {
 	or.SeqResp = r.Sim.Event(g, "up.resp", fmt.Sprintf("#%d sid=%d status=%d cc=%q vary=%q len=%d 304=%v", call.ID, or.SID, or.Status, or.Header.Get("Cache-Control"), or.Header.Get("Vary"), len(or.Body), or.Is304))
 	call.SeqEnd = or.SeqResp
 	return resp, nil
+}
+
+// ctxOver: cancelled, or its deadline has been reached. A latency that ends at the very instant of
+// the deadline races with the context's own timer; the deadline decides, so the outcome is a
+// function of the scenario and not of goroutine wake-up order.
+func ctxOver(ctx context.Context) bool {
+	if ctx.Err() != nil {
+		return true
+	}
+	dl, ok := ctx.Deadline()
+	return ok && !time.Now().Before(dl)
+}
+
+func ctxErr(ctx context.Context) error {
+	if err := ctx.Err(); err != nil {
+		return err
+	}
+	return context.DeadlineExceeded
 }
 
 func bodyAllowed(method string, status int) bool {
@@ -458,11 +478,12 @@ func (r *Run) compose(g *kit.Gor, call *UpCall, req *http.Request, res, planIdx 
 			resp.Header.Set("Content-Length", strconv.Itoa(len(body)))
 		}
 		or.Header = resp.Header.Clone()
-		if plan.Fault == "eof" && framing == "h2nolen" && plan.FaultAt >= 0 && plan.FaultAt < len(body) {
-			body = body[:plan.FaultAt]
+		fat := max(plan.FaultAt, 0) // there is no header block on this wire: a fault position is a body offset
+		if plan.Fault == "eof" && framing == "h2nolen" && fat < len(body) {
+			body = body[:fat]
 			or.Body, or.Complete = body, true
 		}
-		w := &wire{r: r, data: body, cuts: cutsOf(plan.Chunks, 0, len(body)), lat: time.Duration(plan.ChunkLatNs), fault: bodyFault(plan), faultAt: plan.FaultAt, first: true, done: req.Context().Done(), sid: sid}
+		w := &wire{r: r, data: body, cuts: cutsOf(plan.Chunks, 0, len(body)), lat: time.Duration(plan.ChunkLatNs), fault: bodyFault(plan), faultAt: fat, first: true, done: req.Context().Done(), ctx: req.Context(), sid: sid}
 		if !bodyAllowed(req.Method, status) {
 			resp.Body = http.NoBody
 		} else {
@@ -537,7 +558,7 @@ func (r *Run) compose(g *kit.Gor, call *UpCall, req *http.Request, res, planIdx 
 		or.Body = append([]byte(nil), data[hdrLen:]...)
 		or.Complete = true
 	}
-	w := &wire{r: r, data: data, cuts: cutsOf(plan.Chunks, hdrLen, len(data)), lat: time.Duration(plan.ChunkLatNs), fault: bodyFault(plan), faultAt: plan.FaultAt, first: true, done: req.Context().Done(), sid: sid}
+	w := &wire{r: r, data: data, cuts: cutsOf(plan.Chunks, hdrLen, len(data)), lat: time.Duration(plan.ChunkLatNs), fault: bodyFault(plan), faultAt: plan.FaultAt, first: true, done: req.Context().Done(), ctx: req.Context(), sid: sid}
 	if w.fault != "" {
 		// FaultAt is relative to the start of the body unless negative (then inside the header block)
 		if plan.FaultAt >= 0 {
